@@ -9,6 +9,8 @@ import (
 	"go.pennock.tech/tabular/auto"
 	"go.pennock.tech/tabular/properties"
 	"go.pennock.tech/tabular/properties/align"
+	"go.pennock.tech/tabular/texttable"
+	"go.pennock.tech/tabular/texttable/decoration"
 
 	"verif/harness/internal/ev"
 	"verif/harness/internal/gen"
@@ -26,6 +28,10 @@ var Styles = []string{"csv", "html", "json", "markdown", "ascii-simple", "none",
 //	mutate   change a mutable item behind its cell's back and call Cell.Update() (Op carries the gen "mutate" operation);
 //	         from then on the table's content is the mutated one
 //	copycell add a by-value copy of an existing (already measured) cell to a row (Op carries the gen "copycell" operation)
+//	restyle  ONE text wrapper is kept for the whole case; each restyle act points it at another decoration - Style a
+//	         registered name or an unknown one; Reuse = by object (SetDecoration of the named decoration, or of the
+//	         empty decoration for an unknown name), else by name (SetDecorationNamed) - and renders: what it gives
+//	         depends on the decoration selected last, not on what was selected before
 //	faulty   render in Style into a writer that fails at write FaultK in mode FaultMode (the render must fail);
 //	         the wrapper (reused or fresh) and the table must be none the worse for it
 type Act struct {
@@ -40,6 +46,12 @@ type Act struct {
 	FaultK    int     `json:"fault_k,omitempty"`
 	FaultMode string  `json:"fault_mode,omitempty"` // from | once | partial
 }
+
+// UnknownStyles name nothing: rendering in them fails every time, and that too leaves the table as it was.
+var UnknownStyles = []string{"no-such-style", "texttable.nope", "", "utf8-lihgt", "texttable."}
+
+// TextStyles are the registered decorations.
+var TextStyles = Styles[4:]
 
 var errFault = errors.New("injected write failure")
 
@@ -257,6 +269,7 @@ func CheckCase(c Case) *ev.Violation {
 		return refs[style]
 	}
 	long := map[string]auto.RenderTable{}
+	var kept *texttable.TextTable
 	seq := 0
 	for i, a := range c.Acts {
 		switch a.K {
@@ -284,6 +297,35 @@ func CheckCase(c Case) *ev.Violation {
 				if m.MaxEver > w.ncols {
 					w.ncols = m.MaxEver
 				}
+			}
+		case "restyle":
+			if kept == nil {
+				kept = texttable.Wrap(t)
+			}
+			known := false
+			for _, s := range TextStyles {
+				known = known || s == a.Style
+			}
+			switch {
+			case known && a.Reuse:
+				kept.SetDecoration(decoration.Named(a.Style))
+			case known:
+				kept.SetDecorationNamed(a.Style)
+			case a.Reuse:
+				kept.SetDecoration(decoration.EmptyDecoration)
+			default:
+				kept.SetDecorationNamed(a.Style)
+			}
+			out, err := kept.Render()
+			if !known {
+				if err == nil || out != "" {
+					return ev.V("act %d: the kept text wrapper, pointed at the unknown/empty decoration %q, rendered: err=%v output=%q", i+1, a.Style, err, out)
+				}
+				break
+			}
+			want := reference(a.Style)
+			if (err != nil) != (want.err != nil) || out != want.out {
+				return ev.V("act %d: the kept text wrapper, now pointed at %s (by object: %v), renders differently (err %v) from the same content rendered once in that style on a fresh table (err %v)\n--- got\n%s\n--- want\n%s", i+1, a.Style, a.Reuse, err, want.err, out, want.out)
 			}
 		case "faulty":
 			var rw auto.RenderTable
